@@ -10,6 +10,7 @@ W="$R/../verif-out-$id"; mkdir -p "$W"
 export GOFLAGS=-mod=mod GOPROXY=off; unset GOSUMDB GOTOOLCHAIN GOWORK
 sed "s#=> /repo#=> $R#" go.mod > "$W/go.mod"; cp go.sum "$W/go.sum"; cp known-findings.json "$W/" 2>/dev/null || true
 go build -modfile="$W/go.mod" -o "$W/bin" "./checks/$id"
+export VERIF_MODFILE="$W/go.mod"
 set +e
 VERIF_DIR="$W" "$W/bin" "$MODE"
 rc=$?
